@@ -6,3 +6,4 @@ open GoMail.Props.C18
 #print axioms b64_body_lines
 #print axioms body_chunk_independent
 #print axioms header_fold
+#print axioms qp_body_lines
